@@ -569,9 +569,17 @@ def trunc_trial(ctx, sim, second, rng, reqs, frames_of, t, chunk_mode, register_
         if not read_everything(second, model, ctx, wit, 'long-lived second session'):
             return
         ctx.count('monitor:second-session-alive')
-        fresh = simdrv.RawClient(sim.address)
         try:
-            fresh.register()
+            fresh = simdrv.RawClient(sim.address)
+        except OSError as exc:
+            ctx.violation('other-session-broken-by-truncated-stream', 'no new connection is accepted after a truncated stream elsewhere: %r' % (exc,), wit)
+            return
+        try:
+            try:
+                fresh.register()
+            except RuntimeError as exc:
+                ctx.violation('other-session-broken-by-truncated-stream', 'a new session is not opened after a truncated stream elsewhere: %r' % (exc,), wit)
+                return
             if not read_everything(fresh, model, ctx, wit, 'fresh session'):
                 return
         finally:
